@@ -4,10 +4,16 @@ import json
 props=[json.loads(l) for l in open('/verif/properties.jsonl')]
 claimed = {
  'C01': "per-step premises of finality safety on the real liskbft code: quorum arithmetic of SetBFTParameters (accepted thresholds intersect in > 1/3, no wrap-around), and one vote step from an arbitrary symbolic window (prevote/precommit ranges, threshold rule, largestHeightPrecommit, monotone finalized height). The global theorem over unbounded fork trees is outside (proof-assistant claim).",
+ 'C02': "the per-block BFT step (insertBlockBFTInfo, updatePrevotesPrecommits, updateMaxHeight*) equals an independent LIP-0058 transcription from an arbitrary symbolic window; ImpliesMaximalPrevotes equals its definition; parameter lookup / next-change lookup / pruning over the store.",
+ 'C03': "one block-processing step on a really assembled node (real chain, BFT module, diffdb, codec; model DB; scripted application): a block obtained from a valid successor by one symbolic deviation (any header field, payload, signature, signer, slot, aggregate commit, application verdicts; pairs in the thorough tier) is appended only if no rule is violated, and a rejected block leaves database, tip and events unchanged.",
+ 'C04': "deleteBlock never removes a block at or below a fully symbolic finalized height and a refused delete changes nothing; an accepted block raises the stored finalized height to max(previous, precommitted) in the same batch with a finalization event iff raised; sync helper arithmetic is under C19.",
+ 'C05': "apply-then-delete of a valid block restores the exact database contents (all indexes, consensus store), cached tip and BFT heights apart from the finalized marker / temp copy; diffdb Commit/RevertDiff inverse and Diff codec (harnesses in pkg/db/diffdb).",
+ 'C13': "reduction of crash atomicity to the trusted atomicity of pebble's Apply: on every explored path of processValidated / deleteBlock there is exactly one batch write for a committed step and none for a rejected one, no direct writes, application commit/revert before the write, and a restart on the resulting database finds a complete tip with its revert diff and consensus window. Crash points inside pebble are outside (trusted contract).",
  'C07': "AreDistinctHeadersContradicting: symmetry, generator separation, equality with the LIP-0014 definition and with the semantic characterisation, all six 32-bit fields symbolic.",
  'C08': "varint round trips for all 64-bit values, canonical acceptance of readUint, strict canonical decoding of Transaction up to 13/16 bytes, and generated round-trip harnesses for every *_codec.go type (lengths by pattern, contents symbolic).",
  'C09': "every generated decoder on arbitrary buffers up to 3/5(6) bytes, every codec.Reader entry point, aggregation-bitmap readers: no panic, loops within unwinding bounds.",
  'C16': "EventLogger snapshot/restore keeps exactly pre-snapshot and unrevertible events with consecutive indices (sequences of up to 3/5 events).",
+ 'C18': "connection-gater penalty arithmetic and gates, expiry sweep, rate limiter counters and interval reset, penalty/ban => disconnect, malformed envelope / unknown procedure => ban and disconnect, with fake libp2p host/stream and the real multiaddr code.",
  'C19': "getBestNodeInfo over up to 3/4 symbolic peers for every map order and random pick; sync height-list helper arithmetic for all 32-bit inputs below 2^31.",
 }
 na_reasons = {}
